@@ -30,6 +30,7 @@ type Opts struct {
 	Mode   string     `json:"mode"`
 	Prog   bool       `json:"prog"`
 	Err    string     `json:"err"`
+	Ppt    string     `json:"ppt"` // payload passthru scheme named in the options ("" = none)
 }
 
 // Join describes how a session attaches.
